@@ -244,21 +244,46 @@ func checkC02(c *Ctx) {
 	}
 }
 
-// isProcessFn: a function that opens a CacheContext and invokes the module's event / attestation handler.
+// invokesHandler: f invokes the module's event/attestation handler directly, or through one
+// forwarding function (a recover wrapper).  It returns the call in f through which the handler runs.
+func (c *Ctx) invokesHandler(f *ssa.Function, depth int) *ssa.Call {
+	var out *ssa.Call
+	ana.Instrs(f, func(in ssa.Instruction) {
+		call, ok := in.(*ssa.Call)
+		if !ok || out != nil {
+			return
+		}
+		d, ok := ana.Describe(&call.Call)
+		if !ok {
+			return
+		}
+		if d.Name == "Handle" && d.Iface {
+			out = call
+			return
+		}
+		if depth > 0 {
+			if callee := call.Call.StaticCallee(); callee != nil && c.P.IsModule(callee) && callee != f {
+				if c.invokesHandler(callee, depth-1) != nil {
+					out = call
+				}
+			}
+		}
+	})
+	return out
+}
+
+// isProcessFn: a function that opens a CacheContext and runs the module's event / attestation handler in it.
 func (c *Ctx) isProcessFn(f *ssa.Function, mod string) bool {
 	if f == nil || !inPkg(f, mod+"/keeper") {
 		return false
 	}
-	cache, handle := false, false
+	cache := false
 	ana.Calls(f, func(site ssa.CallInstruction, d ana.CalleeDesc) {
 		if d.Name == "CacheContext" {
 			cache = true
 		}
-		if d.Name == "Handle" && d.Iface {
-			handle = true
-		}
 	})
-	return cache && handle
+	return cache && c.invokesHandler(f, 1) != nil
 }
 
 // checkContiguity: the Votes append is guarded by nonce == last+1 || last == 0 and followed by the nonce store.
